@@ -2,6 +2,9 @@
  * One part per wrapper unit (-DC17_ENC | C17_HEX | C17_ACT | C17_U | C17_J | C17_JP, the same define selects the wrappers in
  * c17.cpp); VF_SPLIT + V_<slice> select a slice of a part for CBMC, the native builds run all slices of the part. */
 #define VF_ALPHABET "ud\\D8cC09fFx\"/bnrt"
+#ifdef C17_GROW
+#define VF_STRING_GROWTH 1      /* lib/models.h: reallocating std::string model instead of "growth is reported" */
+#endif
 #include "verif.h"
 #include "c17_models.h"
 #include "c17_spec.h"
@@ -147,6 +150,29 @@ static void harness(void) {
     REACH(na == C17_NALL && c17_npre == 3 && o[1] == C17_NALL + 3, "longest matched input appended to a 3-byte prefix");
     REACH(na == 0 && o[1] == c17_npre, "empty match appends nothing"); }
 #endif
+}
+#endif
+
+/* ============================================================================================== append_all through the reallocating path */
+#ifdef C17_GROW
+#define NG 24
+static void harness(void) {
+  u64 o[30];
+  draw_prefix();
+  u64 na = IN(0, NG);
+  u8 all[NG];
+  for (u64 i = 0; i < NG; ++i) all[i] = IN_BYTE();
+  u8 *b = (u8 *)exact_alloc_n(na, NG);
+  for (u64 i = 0; i < NG; ++i) if (i < na) b[i] = all[i];
+  w_all_long(b, na, c17_pre, c17_npre, o);
+  CHECK(o[0] == 1, "append_all returns normally");
+  CHECK(o[1] == c17_npre + na, "string length = previous length + length of the match");
+  for (u64 i = 0; i < C17_MAXPRE; ++i) if (i < c17_npre) CHECK(o[2 + i] == c17_pre[i], "previous content of the string preserved across reallocation");
+  for (u64 i = 0; i < NG; ++i) if (i < na) CHECK(o[2 + c17_npre + i] == all[i], "appended bytes are the matched bytes");
+  OBS(o[1]); OBS(o[2 + 27]);
+  REACH(na == NG && c17_npre == 3 && o[1] == NG + 3, "27-byte result (beyond the 15-byte short-string capacity)");
+  REACH(c17_npre + na == 16, "first length that needs the heap");
+  REACH(c17_npre + na == 15, "last length that fits the short-string buffer");
 }
 #endif
 
